@@ -42,6 +42,8 @@ func runC16(c *Ctx) {
 	locksOfAllRefsKnownBeforeUpload(c, "R1")
 	rawErrorsWhereClassified(c, "R4")
 	lockDecisionRecords(c, "R1")
+	unlockForgetsLockFirst(c, "R3")
+	unlockGuardAsksServer(c, "R2")
 	prep := p.Fn("commands", "(*uploadContext).prepareUpload")
 	rep := p.Fn("commands", "(*uploadContext).ReportErrors")
 	if prep == nil || rep == nil {
